@@ -481,6 +481,23 @@ func solve(o *Obligation, dir string, timeoutS, seed int, wantModel bool, only [
 		}
 		return res
 	}
+	// Definitely-false test. A refutation is a `sat` answer, which the solvers rarely reach under quantified
+	// hypotheses (frames, map conventions, string axioms). The converse question is an `unsat` question again:
+	// "reach AND condition" unsatisfiable means the condition is false on EVERY path that reaches this point.
+	// Together with the fact that the path was not proved dead (the main query is not unsat), that is a refutation.
+	{
+		no := *o
+		no.Name = o.Name + ".never"
+		no.Cond = "(not " + o.Cond + ")"
+		nr := solve1(&no, dir, timeoutS, seed, false, only)
+		if nr.Answer == "unsat" {
+			res.Answer, res.Solver = "sat", nr.Solver+" (the condition is false on every path reaching it; the path itself was not proved dead)"
+			res.Seconds += nr.Seconds
+			res.Raw = "refuted: `reach and condition` is unsat (" + nr.Solver + "), `reach and not condition` is " + firstLine(res.Raw)
+			res.Model = nil
+			return res
+		}
+	}
 	parts := splitGoal(o.Cond, 12)
 	if len(parts) < 2 {
 		return res
